@@ -747,3 +747,216 @@ Definition apos (p : vec) : arg := ASeq [vx p; vy p; vz p].
 Definition aori (r c : vec) : arg := ASeq [vx r; vy r; vz r; vx c; vy c; vz c].
 Definition asp (sr sc : Q) : arg := ASeq [sr; sc].
 Definition zpt (p : Z * Z) : Q * Q := (inject_Z (fst p), inject_Z (snd p)).
+
+(* ------------------------------------------------------------------ *)
+(* image datasets: get_image_coordinate_system, _get_spatial_information,
+   iter_tiled_full_frame_data -> compute_tile_positions_per_frame (the
+   frame it yields), Transformer.for_image / for_images.
+   A dataset is the record of the attributes those functions read.    *)
+(* ------------------------------------------------------------------ *)
+Definition EAttr : string := "AttributeError"%string.
+Definition EIndex : string := "IndexError"%string.
+Definition EStop : string := "StopIteration"%string.
+
+Record pmeas := PMeas { pm_spacing : arg; pm_ss : option Q }.        (* PixelMeasuresSequence[0] *)
+Record fgroup := FGroup {                                            (* one functional-groups item *)
+  fg_pm : option pmeas;
+  fg_ipp : option arg;                 (* PlanePositionSequence[0].ImagePositionPatient *)
+  fg_iop : option arg;                 (* PlaneOrientationSequence[0].ImageOrientationPatient *)
+  fg_slide : option (Q * Q * Q) }.     (* PlanePositionSlideSequence[0] X/Y/Z offsets *)
+Record dset := DSet {
+  d_for : option string;               (* FrameOfReferenceUID *)
+  d_multiframe : bool;                 (* is_multiframe_image: the IOD of SOPClassUID has NumberOfFrames *)
+  d_tf_class : bool;                   (* SOP class accepted by iter_tiled_full_frame_data *)
+  d_ori_slide : option (list Q);       (* ImageOrientationSlide *)
+  d_center_seq : bool;                 (* ImageCenterPointCoordinatesSequence present *)
+  d_ipp : option arg; d_iop : option arg; d_ps : option arg; d_ss : option Q;   (* root level *)
+  d_shared : option fgroup;            (* SharedFunctionalGroupsSequence[0] *)
+  d_perframe : option (list fgroup);   (* PerFrameFunctionalGroupsSequence *)
+  d_tiled_full : bool;                 (* DimensionOrganizationType == "TILED_FULL" *)
+  d_origin : option (Q * Q * option Q);(* TotalPixelMatrixOriginSequence[0]: X, Y, optional Z *)
+  d_rows : Z; d_cols : Z; d_tpm_rows : Z; d_tpm_cols : Z;
+  d_focal : Z;                         (* TotalPixelMatrixFocalPlanes (default 1) *)
+  d_paths : Z }.                       (* NumberOfOpticalPaths *)
+
+Definition has {A} (o : option A) : bool := match o with Some _ => true | None => false end.
+Definition first_of {A} (a b : option A) (k : string) : res A :=
+  match a with Some x => Ok x | None => match b with Some y => Ok y | None => Err k end end.
+(* list[i] with Python's negative indices *)
+Definition py_index {A} (l : list A) (i : Z) : res A :=
+  let n := Z.of_nat (length l) in
+  let j := if (i <? 0)%Z then (i + n)%Z else i in
+  if ((0 <=? j) && (j <? n))%Z then
+    match nth_error l (Z.to_nat j) with Some x => Ok x | None => Err EIndex end
+  else Err EIndex.
+
+Inductive csys := CPatient | CSlide.
+Definition first_has_ipp (o : option (list fgroup)) : res bool :=
+  match o with
+  | None => Ok false
+  | Some [] => Err EIndex
+  | Some (g :: _) => Ok (has (fg_ipp g))
+  end.
+Definition image_coordinate_system (d : dset) : res (option csys) :=
+  if negb (has (d_for d)) then Ok None
+  else if has (d_ori_slide d) || d_center_seq d then Ok (Some CSlide)
+  else if has (d_ipp d) then Ok (Some CPatient)
+  else if match d_shared d with Some g => has (fg_ipp g) | None => false end then Ok (Some CPatient)
+  else bind (first_has_ipp (d_perframe d)) (fun b => Ok (if b then Some CPatient else None)).
+
+(* number of tile columns and tile rows of the total pixel matrix *)
+Definition tile_grid (d : dset) : Z * Z :=
+  (((d_tpm_cols d - 1) / d_cols d + 1)%Z, ((d_tpm_rows d - 1) / d_rows d + 1)%Z).
+Definition vec_arg (v : vec) : arg := ASeq [vx v; vy v; vz v].
+
+Record tframe := TFrame { tf_channel : Z; tf_focal : Z; tf_col : Z; tf_row : Z; tf_pos : vec }.
+(* the f-th item (1-based) yielded by iter_tiled_full_frame_data, as _get_spatial_information
+   fetches it: next(islice(gen, f - 1, f)).  Modelled for Rows, Columns >= 1. *)
+Definition tiled_full_frame (d : dset) (f : Z) : res tframe :=
+  let k := (f - 1)%Z in
+  if (k <? 0)%Z then Err EValue                                   (* islice refuses a negative start *)
+  else if negb (d_tf_class d) then Err EValue
+  else
+  match d_origin d with None => Err EAttr | Some (x, y, _) =>     (* the Z offset of the origin is not read *)
+  match d_ori_slide d with None => Err EAttr | Some ol =>
+  match ol with
+  | o0 :: o1 :: o2 :: o3 :: o4 :: o5 :: _ =>
+    match d_shared d with None => Err EAttr | Some sh =>
+    match fg_pm sh with None => Err EAttr | Some pm =>
+    bind (match pm_spacing pm with
+          | ASeq (s0 :: s1 :: _) => Ok (s0, s1)
+          | ASeq _ => Err EIndex
+          | AScalar _ => Err EType
+          end) (fun s =>
+    let ss := match pm_ss pm with Some q => q | None => 1 end in
+    if ((d_rows d <=? 0) || (d_cols d <=? 0) || (d_focal d <=? 0) || (d_paths d <=? 0))%Z
+    then Err "unmodelled"%string else
+    let '(ntc, ntr) := tile_grid d in
+    let nt := (ntc * ntr)%Z in
+    let t := (k mod nt)%Z in
+    let sl := ((k / nt) mod d_focal d)%Z in
+    let ch := (k / (nt * d_focal d))%Z in
+    let ci := (t mod ntc)%Z in
+    let ri := (t / ntc)%Z in
+    bind (p2r_make (ASeq [x; y; inject_Z sl * ss]) (ASeq [o0; o1; o2; o3; o4; o5]) (ASeq [fst s; snd s])) (fun A =>
+    if ((ntc <=? 0) || (ntr <=? 0) || (d_paths d * d_focal d * nt <=? k))%Z then Err EStop
+    else Ok (TFrame (ch + 1) (sl + 1) (ci * d_cols d + 1) (ri * d_rows d + 1)
+                    (aapply A (V3 (inject_Z (ci * d_cols d)) (inject_Z (ri * d_rows d)) 0)))))
+    end end
+  | _ => Err EIndex
+  end end end.
+
+Record sinfo := SInfo { si_pos : arg; si_ori : arg; si_sp : arg; si_ss : option Q }.
+Definition fs_get {A} (fs : option fgroup) (f : fgroup -> option A) : option A :=
+  match fs with Some g => f g | None => None end.
+
+(* _get_spatial_information *)
+Definition get_spatial_information (d : dset) (frame : option Z) (tpm : bool) : res sinfo :=
+  bind (image_coordinate_system d) (fun ocs =>
+  match ocs with
+  | None => Err EValue
+  | Some cs =>
+    if tpm then
+      match d_origin d with
+      | None => Err EValue
+      | Some (x, y, oz) =>
+        match d_shared d with
+        | None => Err EAttr
+        | Some sh =>
+          match fg_pm sh with
+          | None => Err EValue
+          | Some pm =>
+            match d_ori_slide d with
+            | None => Err EAttr
+            | Some o => Ok (SInfo (ASeq [x; y; match oz with Some z => z | None => 0 end]) (ASeq o)
+                                  (pm_spacing pm) (pm_ss pm))
+            end
+          end
+        end
+      end
+    else if d_multiframe d then
+      match frame with
+      | None => Err EType
+      | Some f =>
+        match d_shared d with
+        | None => Err EAttr
+        | Some sh =>
+          bind (if d_tiled_full d then Ok None
+                else match d_perframe d with
+                     | None => Err EAttr
+                     | Some l => bind (py_index l (f - 1)) (fun g => Ok (Some g))
+                     end) (fun fs =>
+          bind (first_of (fg_pm sh) (fs_get fs fg_pm) EValue) (fun pm =>
+          match cs with
+          | CSlide =>
+            bind (if d_tiled_full d then bind (tiled_full_frame d f) (fun t => Ok (vec_arg (tf_pos t)))
+                  else bind (first_of (fg_slide sh) (fs_get fs fg_slide) EValue)
+                            (fun p => let '(x, y, z) := p in Ok (ASeq [x; y; z]))) (fun pos =>
+            match d_ori_slide d with
+            | None => Err EAttr
+            | Some o => Ok (SInfo pos (ASeq o) (pm_spacing pm) (pm_ss pm))
+            end)
+          | CPatient =>
+            bind (first_of (fg_ipp sh) (fs_get fs fg_ipp) EValue) (fun pos =>
+            bind (first_of (fg_iop sh) (fs_get fs fg_iop) EValue) (fun o =>
+            Ok (SInfo pos o (pm_spacing pm) (pm_ss pm))))
+          end))
+        end
+      end
+    else
+      if match frame with Some f => negb (f =? 1)%Z | None => false end then Err EType
+      else
+        match d_ipp d, d_iop d, d_ps d with
+        | Some p, Some o, Some s => Ok (SInfo p o s (d_ss d))
+        | _, _, _ => Err EAttr
+        end
+  end).
+
+Definition ss_or_1 (s : sinfo) : Q := match si_ss s with Some q => q | None => 1 end.
+(* <Transformer>.for_image *)
+Definition for_image_p2r (d : dset) (f : option Z) (tpm : bool) : res aff :=
+  bind (get_spatial_information d f tpm) (fun s => p2r_make (si_pos s) (si_ori s) (si_sp s)).
+Definition for_image_i2r (d : dset) (f : option Z) (tpm : bool) : res aff :=
+  bind (get_spatial_information d f tpm) (fun s => i2r_make (si_pos s) (si_ori s) (si_sp s)).
+Definition for_image_r2p (d : dset) (f : option Z) (tpm : bool) : res aff :=
+  bind (get_spatial_information d f tpm) (fun s => r2p_make (si_pos s) (si_ori s) (si_sp s) (ss_or_1 s)).
+Definition for_image_r2i (d : dset) (f : option Z) (tpm : bool) : res aff :=
+  bind (get_spatial_information d f tpm) (fun s => r2i_make (si_pos s) (si_ori s) (si_sp s) (ss_or_1 s)).
+(* PixelToPixelTransformer.for_images / ImageToImageTransformer.for_images *)
+Definition same_frame_of_reference (a b : dset) : res unit :=
+  match d_for a, d_for b with
+  | Some u, Some v => if String.eqb u v then Ok tt else Err EValue
+  | _, _ => Err EValue
+  end.
+Definition for_images (mk : arg -> arg -> arg -> arg -> arg -> arg -> res aff)
+    (a b : dset) (fa fb : option Z) (ta tb : bool) : res aff :=
+  bind (same_frame_of_reference a b) (fun _ =>
+  bind (get_spatial_information a fa ta) (fun s =>
+  bind (get_spatial_information b fb tb) (fun t =>
+  mk (si_pos s) (si_ori s) (si_sp s) (si_pos t) (si_ori t) (si_sp t)))).
+Definition for_images_p2p := for_images p2p_make.
+Definition for_images_i2i := for_images i2i_make.
+
+(* ---- run_* for the dataset entry points ---- *)
+Definition varg (a : arg) : val := match a with ASeq l => VL (map VQ l) | AScalar q => VQ q end.
+Definition vsinfo (s : sinfo) : val :=
+  VL [varg (si_pos s); varg (si_ori s); varg (si_sp s); vopt VQ (si_ss s)].
+Definition run_spatial_info (d : dset) (f : option Z) (tpm : bool) : val :=
+  vres vsinfo (get_spatial_information d f tpm).
+Definition vcsys (o : option csys) : val :=
+  match o with None => VNone | Some CPatient => VS "PATIENT" | Some CSlide => VS "SLIDE" end.
+Definition run_coordinate_system (d : dset) : val := vres vcsys (image_coordinate_system d).
+(* [info; P2R affine + call; I2R affine; R2P affine; R2I affine] *)
+Definition run_for_image (d : dset) (f : option Z) (tpm : bool) (pts : list (list Q)) : val :=
+  VL [run_spatial_info d f tpm;
+      with_aff (for_image_p2r d f tpm) (fun A => call_p 2 true pts (fun l => VL (map vvec (call_2to3 A l))));
+      vres vaff (for_image_i2r d f tpm);
+      vres vaff (for_image_r2p d f tpm);
+      vres vaff (for_image_r2i d f tpm)].
+Definition run_for_images (a b : dset) (fa fb : option Z) (ta tb : bool) (pts : list (list Q)) : val :=
+  VL [with_aff (for_images_p2p a b fa fb ta tb)
+        (fun A => call_p 2 true pts (fun l => vpts (p2p_call A false l)));
+      vres vaff (for_images_i2i a b fa fb ta tb)].
+Definition run_tiled_full_frame (d : dset) (f : Z) : val :=
+  vres (fun t => VL [VZ (tf_channel t); VZ (tf_focal t); VZ (tf_col t); VZ (tf_row t); vvec (tf_pos t)])
+       (tiled_full_frame d f).
